@@ -27,6 +27,7 @@ class Prof:
     id_hi: int = 255
     bot: bool = False
     wf_subst: bool = True  # only non-redundant ESubst/SSubst nodes (docs: the others are ill-formed terms)
+    mv_shared: bool = False  # all occurrences of a metavariable id carry the same constraint lists
     raw_inst: bool = False  # Instantiate(pattern, {k: value}) with an arbitrary pattern (partial instantiation)
 
 
@@ -114,6 +115,23 @@ def gen(ctx: Any, n: int, prof: Prof, meta_only: bool = False) -> Any:
         return P.Symbol(o[1])
     if k == 'mv':
         ne, ns, npos, nneg = o[2]
+        if prof.mv_shared:
+            # one constraint annotation per metavariable id on a path
+            cache = getattr(ctx, '_mvcache', None)
+            if cache is None or cache[0] != ctx.path_id:
+                cache = (ctx.path_id, {})
+                ctx._mvcache = cache
+            if o[1] in cache[1]:
+                return cache[1][o[1]]
+            mvn = P.MetaVar(
+                o[1],
+                tuple(P.EVar(ctx.int('ce', 0, prof.id_hi)) for _ in range(ne)),
+                tuple(P.SVar(ctx.int('cs', 0, prof.id_hi)) for _ in range(ns)),
+                tuple(P.SVar(ctx.int('cp', 0, prof.id_hi)) for _ in range(npos)),
+                tuple(P.SVar(ctx.int('cn', 0, prof.id_hi)) for _ in range(nneg)),
+            )
+            cache[1][o[1]] = mvn
+            return mvn
         return P.MetaVar(
             o[1],
             tuple(P.EVar(ctx.int('ce', 0, prof.id_hi)) for _ in range(ne)),
@@ -285,7 +303,7 @@ def delta_orders(K: int) -> list[tuple]:
     return orders
 
 
-def fresh_copy(ctx: Any, t: tuple, hi: int = 255) -> tuple:
+def fresh_copy(ctx: Any, t: tuple, hi: int = 255, keep_mv: bool = False) -> tuple:
     """same shape as the oracle term t, every element/set/binder id replaced by a
     fresh symbolic integer (the solver decides which of them are equal)"""
     k = t[0]
@@ -296,11 +314,13 @@ def fresh_copy(ctx: Any, t: tuple, hi: int = 255) -> tuple:
     if k == 'sym':
         return t
     if k in ('imp', 'app'):
-        return (k, fresh_copy(ctx, t[1], hi), fresh_copy(ctx, t[2], hi))
+        return (k, fresh_copy(ctx, t[1], hi, keep_mv), fresh_copy(ctx, t[2], hi, keep_mv))
     if k in ('ex', 'mu'):
-        return (k, ctx.int('fb', 0, hi), fresh_copy(ctx, t[2], hi))
+        return (k, ctx.int('fb', 0, hi), fresh_copy(ctx, t[2], hi, keep_mv))
     if k == 'mv':
+        if keep_mv:
+            return t
         return ('mv', t[1]) + tuple(tuple(ctx.int('fc', 0, hi) for _ in l) for l in t[2:])
     if k in ('es', 'ss'):
-        return (k, fresh_copy(ctx, t[1], hi), ctx.int('fv', 0, hi), fresh_copy(ctx, t[3], hi))
+        return (k, fresh_copy(ctx, t[1], hi, keep_mv), ctx.int('fv', 0, hi), fresh_copy(ctx, t[3], hi, keep_mv))
     raise TypeError(k)
